@@ -18,12 +18,16 @@
    Deviation switches (self-test: TLC must refute the invariants when one is TRUE):
      EARLY_PUBLISH  the list is assigned to self.__precompute BEFORE it is filled, the
                     appends then hit the published list
-     SPLIT_ASSIGN   scale() stores the three coordinates one after the other *)
+     SPLIT_ASSIGN   scale() stores the three coordinates one after the other
+     TORN_READ      _maybe_precompute() reads z of self.__coords in one statement and x, y in a
+                    later one (the real code reads the triple once); matters for a generator that
+                    is given in Jacobian form (mode "jtable") and rescaled by the reader in between *)
 EXTENDS Naturals, Sequences, TLC
 
-CONSTANTS N, EARLY_PUBLISH, SPLIT_ASSIGN
+CONSTANTS N, EARLY_PUBLISH, SPLIT_ASSIGN, TORN_READ
 
-VARIABLES mode,    \* "table": the object is a generator (affine);  "scale": a Jacobian point, no generator
+VARIABLES mode,    \* "table": the object is a generator (affine);  "scale": a Jacobian point, no generator;
+                   \* "jtable": a generator given in Jacobian form (z # 1): the table is built while the reader rescales it
           bpc,     \* builder: next statement
           loc,     \* builder's local list
           pub,     \* self.__precompute
@@ -69,8 +73,9 @@ EffectStarTo(l2, p2, s2, c2) ==
     /\ c2 = coords \/ (coords = Old /\ c2 = New)
 
 -----------------------------------------------------------------------------
-Init == /\ mode \in {"table", "scale"}
-        /\ bpc = IF mode = "table" THEN "p_test" ELSE "s_read"
+Modes == {"table", "scale", "jtable"}
+Init == /\ mode \in Modes
+        /\ bpc = IF mode = "scale" THEN "s_read" ELSE "p_test"
         /\ loc = <<>> /\ pub = <<>> /\ shared = FALSE
         /\ coords = IF mode = "table" THEN New ELSE Old
         /\ tmp = <<"-", "-", "-">>
@@ -87,7 +92,11 @@ P_Test    == bpc = "p_test" /\ Go(IF pub # <<>> THEN "done" ELSE "p_new")       
 P_New     == bpc = "p_new" /\ Go("p_coords") /\ loc' = <<>>                          \* precompute = []
              /\ (IF EARLY_PUBLISH THEN pub' = <<>> /\ shared' = TRUE ELSE UNCHANGED <<pub, shared>>)
              /\ UNCHANGED <<coords, tmp>>
-P_Coords  == bpc = "p_coords" /\ Go("p_first") /\ tmp' = coords                      \* coord_x, coord_y, coord_z = self.__coords
+P_Coords  == bpc = "p_coords"                                                        \* coord_x, coord_y, coord_z = self.__coords
+             /\ (IF TORN_READ THEN Go("p_coords2") /\ tmp' = <<tmp[1], tmp[2], coords[3]>>   \* (deviation: z first ...
+                              ELSE Go("p_first") /\ tmp' = coords)
+             /\ UNCHANGED <<loc, pub, shared, coords>>
+P_Coords2 == bpc = "p_coords2" /\ Go("p_first") /\ tmp' = <<coords[1], coords[2], tmp[3]>>  \*  ... x and y later)
              /\ UNCHANGED <<loc, pub, shared, coords>>
 P_First   == bpc = "p_first" /\ Go("p_while") /\ AppendLoc                           \* precompute.append(...)
              /\ UNCHANGED <<shared, coords, tmp>>
@@ -113,13 +122,13 @@ S_AX      == bpc = "s_ax" /\ Go("s_ay") /\ coords' = <<Scaled(tmp)[1], coords[2]
 S_AY      == bpc = "s_ay" /\ Go("s_az") /\ coords' = <<coords[1], Scaled(tmp)[2], coords[3]>> /\ UNCHANGED <<loc, pub, shared, tmp>>
 S_AZ      == bpc = "s_az" /\ Go("done") /\ coords' = <<coords[1], coords[2], Scaled(tmp)[3]>> /\ UNCHANGED <<loc, pub, shared, tmp>>
 
-Builder == /\ \/ P_Test \/ P_New \/ P_Coords \/ P_First \/ P_While \/ P_Double \/ P_Append \/ P_Publish
+Builder == /\ \/ P_Test \/ P_New \/ P_Coords \/ P_Coords2 \/ P_First \/ P_While \/ P_Double \/ P_Append \/ P_Publish
               \/ S_Read \/ S_Test \/ S_Compute \/ S_Assign \/ S_AX \/ S_AY \/ S_AZ
            /\ UNCHANGED <<mode, rdone, obs>>
 
 (* reader: complete operations *)
 \* k*G: own complete _maybe_precompute (publishes a list of its own if none is published), then one pass over the table
-RdMul == /\ mode = "table"
+RdMul == /\ mode \in {"table", "jtable"}
          /\ LET t == IF pub = <<>> THEN TableFrom(coords) ELSE pub
             IN /\ pub' = t
                /\ shared' = IF pub = <<>> THEN FALSE ELSE shared
@@ -131,7 +140,7 @@ RdEq  == /\ obs' = [op |-> "eq", seen |-> Len(pub), ok |-> Affine(coords) = "P"]
          /\ rdone' = TRUE
          /\ UNCHANGED <<mode, bpc, loc, pub, shared, coords, tmp>>
 \* k*Q on a point without table: own complete scale(), then the ladder on the triple
-RdScaleMul == /\ mode = "scale"
+RdScaleMul == /\ mode \in {"scale", "jtable"}
               /\ coords' = IF coords[3] = "one" THEN coords ELSE Scaled(coords)
               /\ obs' = [op |-> "smul", seen |-> Len(pub), ok |-> Affine(coords') = "P"]
               /\ rdone' = TRUE
@@ -143,8 +152,8 @@ Next == Builder \/ Reader \/ Finished
 Spec == Init /\ [][Next]_vars /\ WF_vars(Builder)
 
 -----------------------------------------------------------------------------
-TypeOK == /\ mode \in {"table", "scale"}
-          /\ bpc \in {"p_test", "p_new", "p_coords", "p_first", "p_while", "p_double", "p_append", "p_publish",
+TypeOK == /\ mode \in Modes
+          /\ bpc \in {"p_test", "p_new", "p_coords", "p_coords2", "p_first", "p_while", "p_double", "p_append", "p_publish",
                       "s_read", "s_test", "s_compute", "s_assign", "s_ax", "s_ay", "s_az", "done"}
           /\ Len(loc) <= N /\ Len(pub) <= N
           /\ shared \in BOOLEAN /\ rdone \in BOOLEAN
@@ -154,5 +163,5 @@ ReaderOK == obs.ok /\ obs.seen \in {0, N}
 \* every builder statement is one of the effects the trace spec allows between two preemption points
 StepsAreEffects == [][bpc' # bpc => EffectTo(loc', pub', shared', coords')]_vars
 BuilderFinishes == <>(bpc = "done")
-FinalOK == bpc = "done" => (mode = "table" => TableComplete) /\ (mode = "scale" => IsScaled)
+FinalOK == bpc = "done" => (mode # "scale" => TableComplete) /\ (mode = "scale" => IsScaled)
 =============================================================================
